@@ -1,11 +1,41 @@
 (** C02 — section, list and rule structure follows the nesting model
-    (models: Model/Nest.v, Model/Lists.v; proofs: Proofs/NestProofs.v, Proofs/ListsProofs.v).
-    Sections/rules/content and blocks of list lines are separate theorems;
-    their interleaving (a content block closes the open lists, a heading closes
-    everything) is decided per run against the real parser. *)
+    (models: Model/Nest.v, Model/Lists.v, Model/Blocks.v; proofs: Proofs/NestProofs.v,
+    Proofs/ListsProofs.v, Proofs/BlocksProofs.v).
+    Sections/rules/content and blocks of list lines have a theorem each, and
+    their interleaving on whole pages (any other block closes the open lists,
+    which become content of the innermost open section) a third one; the
+    combined machine is compared with the real parser on every generated page. *)
 From Coq Require Import List Arith.
 Import ListNotations.
 From WTP Require Import Model.Nest Proofs.NestProofs Model.Lists Proofs.ListsProofs.
+From WTP Require Model.Blocks Proofs.BlocksProofs.
+
+(* Whole pages: for EVERY sequence of headings (level >= 1), paragraphs, horizontal rules and list lines (non-empty
+   markers) in any order, the line-by-line machine -- the list machine running on top of the section stack, every
+   other block first closing all open lists -- builds exactly the tree of the specification: each maximal run of
+   list lines forms the lists of the prefix rule, and these lists, the paragraphs, the rules and the sections nest
+   by "a section absorbs what follows it until a heading of the same or a lower level". *)
+Theorem c02_pages_follow_nesting_model :
+  forall d, Forall Blocks.cblk_ok d -> Blocks.parse d = Blocks.spec d.
+Proof. exact BlocksProofs.parse_spec. Qed.
+Print Assumptions c02_pages_follow_nesting_model.
+
+(* ... and the line-by-line machine is the section machine run on the page whose list runs have been replaced by
+   the lists the list machine makes of them *)
+Theorem c02_page_machine_is_sections_over_lists :
+  forall d, Blocks.parse d = Nest.parse (Blocks.group Lists.parse [] d).
+Proof. exact BlocksProofs.parse_is_grouped. Qed.
+Print Assumptions c02_page_machine_is_sections_over_lists.
+
+Example c02_a_page :
+  let d := [Blocks.BH 2 1; Blocks.BLI [42] 1; Blocks.BLI [42; 35] 2; Blocks.BT 1; Blocks.BLI [35] 3;
+            Blocks.BH 3 2; Blocks.BLI [42] 4; Blocks.BHR 1; Blocks.BT 2; Blocks.BH 2 3] in
+  Forall Blocks.cblk_ok d /\
+  Blocks.parse d =
+    [ISec 2 1 [IT (PList (LL [42] [LI [42] 1 [LL [42; 35] [LI [42; 35] 2 []]]])); IT (PText 1); IT (PList (LL [35] [LI [35] 3 []]));
+               ISec 3 2 [IT (PList (LL [42] [LI [42] 4 []]))]; IHR 1; IT (PText 2)];
+     ISec 2 3 []].
+Proof. split; [repeat constructor; discriminate | reflexivity]. Qed.
 
 (* For EVERY sequence of headings (level >= 1), content blocks and horizontal
    rules, the left-to-right stack machine (pop while the open section's level
